@@ -154,6 +154,53 @@ func c15Sweeper(o *c15Obs, clockFirst bool) {
 	c15Finish(o, w, []*harness.Client{y}, false)
 }
 
+// c15ResumeExpired: a session with a full queue (max_queued 1, inflight_expiry 0) whose only
+// entry is an unacknowledged in-flight message that expired while the client was away is
+// resumed while a new message is published to it: the queue sacrifices the expired entry
+// (and gives its packet identifier back to the limiter) while the new connection's poll
+// goroutine replays the in-flight entries.
+func c15ResumeExpired(o *c15Obs, gated bool) {
+	c14Reset("", nil)
+	cfg := harness.DefaultConfig()
+	cfg.PluginOrder = []string{"vp1"}
+	cfg.MQTT.MaxQueuedMsg, cfg.MQTT.MaxInflight, cfg.MQTT.InflightExpiry = 1, 1, 0
+	w := harness.NewWorld(cfg, c14BaseHooks())
+	s := c15Connect(w, "S", "s", true, &refmqtt.Props{SessionExpiry: harness.U32(3600)})
+	s.Subscribe(0, refmqtt.Sub{Filter: "t", QoS: 1})
+	w.Srv.Publisher().Publish(&gmqtt.Message{Topic: "t", QoS: 1, Payload: []byte("m1"), MessageExpiry: 1})
+	vsched.Settle()
+	s.Close() // m1 stays unacknowledged
+	vsched.Settle()
+	vsched.Advance(2 * time.Second)
+	n := w.Dial("N")
+	n.Version = refmqtt.V5
+	vsched.Go("reconnect", func() {
+		n.Send(harness.ConnectPacket(harness.ConnectOpts{ClientID: "s", Clean: false, Version: refmqtt.V5, Props: &refmqtt.Props{SessionExpiry: harness.U32(3600)}}))
+	})
+	published := false
+	vsched.Go("api-publish", func() {
+		if gated {
+			vsched.WaitUntil("connack-written", func() bool { return n.Conn.Buffered() > 0 })
+		}
+		w.Srv.Publisher().Publish(&gmqtt.Message{Topic: "t", QoS: 1, Payload: []byte("m2")})
+		published = true
+	})
+	vsched.Settle()
+	c15Answered(o, n, "CONNECT(resume)", hasType(n, refmqtt.CONNACK))
+	if !published {
+		o.bad("liveness", "publish-never-returned", "Publisher.Publish blocked; parked: "+strings.Join(vsched.ThreadsParked(), ", "))
+	}
+	got := 0
+	n.Pump()
+	for _, r := range n.Inbox {
+		if r.P != nil && r.P.Type == refmqtt.PUBLISH && string(r.P.Payload) == "m2" {
+			got++
+		}
+	}
+	o.outcome = fmt.Sprint(hasType(n, refmqtt.CONNACK), published, got)
+	c15Finish(o, w, []*harness.Client{n}, false)
+}
+
 type c15Scenario struct {
 	name string
 	body func(o *c15Obs)
@@ -294,6 +341,8 @@ func c15Scenarios() []c15Scenario {
 		}},
 		{"sweeper-vs-reconnect-of-an-expired-session", func(o *c15Obs) { c15Sweeper(o, true) }},
 		{"reconnect-vs-sweeper-of-an-expired-session", func(o *c15Obs) { c15Sweeper(o, false) }},
+		{"publish-vs-resumed-session-replaying-an-expired-inflight-message", func(o *c15Obs) { c15ResumeExpired(o, false) }},
+		{"publish-when-the-resumed-session-is-acknowledged-replaying-an-expired-inflight-message", func(o *c15Obs) { c15ResumeExpired(o, true) }},
 		{"api-publish-subscribe-stats-vs-client", func(o *c15Obs) {
 			w := c15World(0)
 			s := c15Connect(w, "S", "s", true, nil)
@@ -387,7 +436,7 @@ func c15Scenarios() []c15Scenario {
 
 func runC15(c *explore.Ctx) {
 	c.Level = "model_checking"
-	c.Rule = "E3: stateless schedule search (DFS over the choice points of the cooperative scheduler: every mutex/cond/channel/select/waitgroup/once/atomic-flag/conn-I/O operation of the instrumented broker) of 11 concurrent scenarios (take-overs, session sweeper vs the reconnect of an expired session (both start orders), subscribe/publish/kill, QoS2 flow vs acks vs DISCONNECT, Stop vs CONNECT vs API publish, TerminateSession vs reconnect vs sweeper tick, API calls vs client publish, delayed-will timer vs Stop, stalled reader take-over, client killed with a full window), all schedules with <=1 (quick) / <=2 (thorough) deviations (a deviation demotes the running thread until all others are blocked; select alternatives are enumerated for free). After every execution: no panic, no deadlock, every request answered or its socket closed, Stop returns with listener and connections closed, Unload and OnStop exactly once, no broker goroutine alive. states = choice points visited, transitions = executions."
+	c.Rule = "E3: stateless schedule search (DFS over the choice points of the cooperative scheduler: every mutex/cond/channel/select/waitgroup/once/atomic-flag/conn-I/O operation of the instrumented broker) of 13 concurrent scenarios (take-overs, a publish racing the resumption of a session whose full queue holds an expired in-flight message (limiter lock vs queue lock), session sweeper vs the reconnect of an expired session (both start orders), subscribe/publish/kill, QoS2 flow vs acks vs DISCONNECT, Stop vs CONNECT vs API publish, TerminateSession vs reconnect vs sweeper tick, API calls vs client publish, delayed-will timer vs Stop, stalled reader take-over, client killed with a full window), all schedules with <=1 (quick) / <=2 (thorough) deviations (a deviation demotes the running thread until all others are blocked; select alternatives are enumerated for free). After every execution: no panic, no deadlock, every request answered or its socket closed, Stop returns with listener and connections closed, Unload and OnStop exactly once, no broker goroutine alive. states = choice points visited, transitions = executions."
 	c.Trusted = []string{"vsched: interleavings only at synchronisation operations (complete for data-race-free code); channel commit semantics as in the gc runtime", "memconn (no TCP RST modelling)"}
 	c.Assumptions = []string{"data-race freedom cannot be decided by the schedule search (a cooperative scheduler's hand-offs are happens-before edges); it is watched by a separate free-running pass: the uninstrumented broker under the Go race detector, driven over loopback TCP by concurrent subscribers, publishers, take-overs, administrative calls and Stop (coverage.race_pass); that pass is a dynamic detector on the schedules that happened, not an exhaustive search"}
 	bound := 1
